@@ -126,6 +126,8 @@ func (vm *VM) resetPath(prefix []Decision) {
 	vm.declared = map[string]symDecl{}
 	vm.unknowns = 0
 	vm.mapIDs = 0
+	vm.frozenOn = false
+	vm.frozen, vm.frozenMaps = nil, nil
 }
 
 type pathOutcome struct {
